@@ -106,10 +106,14 @@ VecFloat(p) == LET els == SplitOn(p, ",", 1, "") IN
 \* classification of one token: [kind, item]; kind in open / close / drop / item
 Classify(tok, instrs) ==
   LET payload(n) == SubSeq(tok, n + 1, Len(tok) - 1)
-      vec(r) == IF r.ok THEN [kind |-> "item", item |-> r.item] ELSE [kind |-> "drop", item |-> EmptyList]
-  IN IF StartsWith(tok, "INT[") THEN (IF Len(tok) < 5 THEN vec([ok |-> FALSE]) ELSE vec(VecInt(payload(4))))
-     ELSE IF StartsWith(tok, "FLOAT[") THEN (IF Len(tok) < 7 THEN vec([ok |-> FALSE]) ELSE vec(VecFloat(payload(6))))
-     ELSE IF StartsWith(tok, "BOOL[") THEN (IF Len(tok) < 6 THEN vec([ok |-> FALSE]) ELSE vec(VecBool(payload(5))))
+      \* a well-formed literal (closing bracket, every element readable) is that vector; a malformed one "is dropped"
+      \* (C03) - or, where the implementation is lenient (it does not look at the last character), read as a vector of
+      \* its type: pattern optvec = nothing or one vector of type t, never anything else
+      vec(r, t) == IF r.ok /\ Ch(tok, Len(tok)) = "]" THEN [kind |-> "item", item |-> r.item]
+                   ELSE [kind |-> "item", item |-> [k |-> "optvec", v |-> t]]
+  IN IF StartsWith(tok, "INT[") THEN (IF Len(tok) < 5 THEN vec([ok |-> FALSE], "ivec") ELSE vec(VecInt(payload(4)), "ivec"))
+     ELSE IF StartsWith(tok, "FLOAT[") THEN (IF Len(tok) < 7 THEN vec([ok |-> FALSE], "fvec") ELSE vec(VecFloat(payload(6)), "fvec"))
+     ELSE IF StartsWith(tok, "BOOL[") THEN (IF Len(tok) < 6 THEN vec([ok |-> FALSE], "bvec") ELSE vec(VecBool(payload(5)), "bvec"))
      ELSE IF tok = "(" THEN [kind |-> "open", item |-> EmptyList]
      ELSE IF tok = ")" THEN [kind |-> "close", item |-> EmptyList]
      ELSE IF tok \in instrs THEN [kind |-> "item", item |-> IIns(tok)]
@@ -148,12 +152,21 @@ Ambiguous(text, instrs, WS) == LET toks == SplitWS(text, 1, "", WS) IN \E i \in 
 
 \* does a concrete item match a parser pattern (float values may be left open)?
 RECURSIVE ItemMatch(_, _)
+RECURSIVE SeqMatch(_, _)
 ItemMatch(p, c) ==
   IF p.k = "floatany" THEN c.k = "float"
   ELSE IF p.k = "fvecp" THEN c.k = "fvec" /\ Len(c.v) = Len(p.v) /\ \A i \in 1..Len(p.v) : (~p.v[i].exact \/ p.v[i].b = c.v[i])
-  ELSE IF p.k = "list" THEN c.k = "list" /\ Len(c.v) = Len(p.v) /\ \A i \in 1..Len(p.v) : ItemMatch(p.v[i], c.v[i])
+  ELSE IF p.k = "list" THEN c.k = "list" /\ SeqMatch(p.v, c.v)
+  ELSE IF p.k = "optvec" THEN c.k = p.v
   ELSE p = c
-SeqMatch(ps, cs) == Len(ps) = Len(cs) /\ \A i \in 1..Len(ps) : ItemMatch(ps[i], cs[i])
+\* element by element; an optvec pattern matches no element or one vector of its type
+HasOpt(ps) == \E i \in 1..Len(ps) : ps[i].k = "optvec"
+SeqMatch(ps, cs) ==
+  IF ~HasOpt(ps) THEN Len(ps) = Len(cs) /\ \A i \in 1..Len(ps) : ItemMatch(ps[i], cs[i])
+  ELSE IF ps = <<>> THEN cs = <<>>
+  ELSE IF Head(ps).k = "optvec"
+       THEN SeqMatch(Tail(ps), cs) \/ (cs # <<>> /\ Head(cs).k = Head(ps).v /\ SeqMatch(Tail(ps), Tail(cs)))
+       ELSE cs # <<>> /\ ItemMatch(Head(ps), Head(cs)) /\ SeqMatch(Tail(ps), Tail(cs))
 
 \* rendering a pattern-free item back to program text (tokens separated by single blanks)
 RECURSIVE Render(_)
